@@ -79,6 +79,7 @@ PROPS = {
         ]
 },
     "C12": {
+        "cli": True,
         "rule": "all 256 codes; to_ansi_8bit on every palette colour, all 256 grays, the colorcheck colours, a lattice (step 17 quick / 5 thorough) and random colours, each against brute force over the 240 entries; implementation vs model code exactly",
         "trust": [
                 "the Generated table is written by pv-harness gen-ansi from the live code before lake build"
